@@ -4,6 +4,7 @@
      load      = Exists; Open; LockShared; Read; Unlock        (baseline / history / cache loaders)
      save      = the protocol of State/AtomicWrite.v
      snapshot  = OpenSide; LockSide; load; Compute; save; Ack; UnlockSide
+                 (the update lock is taken on the inode that <file>.lock denoted when it was opened)
    [step_core] is one atomic step of one process ([Blk] = the step is a lock attempt and the
    lock is held in a conflicting mode). [step] adds try-lock-with-deadline: a blocked attempt
    consumes one poll of the budget, an attempt with no budget left is the time-out outcome
@@ -51,7 +52,8 @@ Definition cmd_check_cache (w : value) : cmd := mkcmd Cache false true false fal
 
 Inductive lpos := L0 | LS | LO | LL | LR.
 Inductive phase :=
-| PUpd (opened : bool)            (* before / after the side-car lock file has been opened *)
+| PUpd (opened : option inode)    (* before / after the side-car lock file has been opened: the handle denotes the
+                                     inode the name <file>.lock denoted AT OPEN TIME; the lock is taken on that inode *)
 | PLoad (l : lpos) | PComp | PStart | PSave (w : wpos) | PAck
 | PRel (ok : bool)                (* about to drop the update lock *)
 | PDone | PFail.
@@ -148,16 +150,13 @@ Definition step_core (s : sys) (p : pid) : sres :=
     let f := sfs s in
     match ph r with
     | PDone | PFail => Stuck
-    | PUpd false =>                                               (* open(create) <file>.lock *)
-        Adv (setfp s (fst (open_create f Side)) p (emit (with_ph r (PUpd true)) "upd:before_lock"))
-    | PUpd true =>                                                (* try_lock_exclusive with deadline *)
-        match names f Side with
-        | Some i =>
-            match try_lock_ex f i p with
-            | Some f' => Adv (setfp s f' p (emit (with_budget (with_ph (with_uh r (Some i)) (body_phase (pcmd r))) (polls s)) "upd:after_lock"))
-            | None => Blk
-            end
-        | None => Adv (setp s p (finish r false))
+    | PUpd None =>                                                (* open(create) <file>.lock *)
+        Adv (setfp s (fst (open_create f Side)) p
+                   (emit (with_ph r (PUpd (Some (snd (open_create f Side))))) "upd:before_lock"))
+    | PUpd (Some i) =>                                            (* try_lock_exclusive with deadline, on the opened inode *)
+        match try_lock_ex f i p with
+        | Some f' => Adv (setfp s f' p (emit (with_budget (with_ph (with_uh r (Some i)) (body_phase (pcmd r))) (polls s)) "upd:after_lock"))
+        | None => Blk
         end
     | PLoad L0 =>                                                 (* path.exists() *)
         match names f Target with
@@ -233,7 +232,7 @@ Definition step_core (s : sys) (p : pid) : sres :=
    pseudo points starting with an exclamation mark *)
 Definition timeout_step (s : sys) (p : pid) (r : proc) : sys :=
   match ph r with
-  | PUpd true => setp s p (emit (with_budget (with_ph r PDone) (polls s)) "!update_lock_timeout")
+  | PUpd (Some _) => setp s p (emit (with_budget (with_ph r PDone) (polls s)) "!update_lock_timeout")
   | PLoad LO => setp s p (emit (emit (with_budget (with_ph r (PLoad LL)) (polls s)) "!read_lock_timeout") "load:after_lock")
   | PSave WOp =>
       let '(f', w') := aw_timeout p (sfs s) (pw r) in
@@ -264,7 +263,7 @@ Definition exec (s : sys) (sched : list pid) : sys :=
 
 (* ---- initial systems ---- *)
 Definition proc0 (c : cmd) (n : nat) : proc :=
-  mkproc c (if cupd c then PUpd false else body_phase c) None None false [] false (wst0 [] 0) n None false [] [] 0.
+  mkproc c (if cupd c then PUpd None else body_phase c) None None false [] false (wst0 [] 0) n None false [] [] 0.
 
 Fixpoint procs_of (l : list (pid * cmd)) (n : nat) : pid -> option proc :=
   match l with
